@@ -23,6 +23,7 @@ package redis
 //@   modifies nothing
 //@   ensures @whole (tagopen(b) == len(b) || tagclose(b) == len(b) || tagclose(b) == tagopen(b)+1) ==> result == b
 //@   ensures @inner !(tagopen(b) == len(b) || tagclose(b) == len(b) || tagclose(b) == tagopen(b)+1) ==> sameslice(result, b[tagopen(b)+1:tagclose(b)])
+//@   ensures @tagof result == tagof(b)
 //@   loop 0 invariant 0 <= i && i <= n && n == len(b) && firstfrom(b, 123, 0, n) == firstfrom(b, 123, i, n)
 //@   loop 0 decreases n - i
 //@   loop 0 unfold firstfrom(b, 123, i, n)
@@ -111,3 +112,27 @@ package redis
 //@   loop 0 unfold alldig(str(b), entry(i), i)
 //@   loop 0 unfold decacc(str(b), entry(i), i)
 //@   loop 0 decreases len(b) - i
+
+// ---- routing (C03 C12 C14) -------------------------------------------------------
+
+//@ func (*simpleRequest).IsReadOnly
+//@   prop C14
+//@   requires r != nil && r.body != nil && len(r.body.Array) > 0
+//@   modifies nothing
+//@   ensures @table-lookup result == isROcmd(lower(str(r.body.Array[0].Text)))
+
+//@ func (*upstream).randomHost
+//@   prop C03
+//@   modifies nothing
+
+//@ func (*upstream).chooseHost
+//@   prop C03 C12 C14
+//@   requires u != nil && req != nil && req.body != nil && len(req.body.Array) > 0 && u.cfg != nil
+//@   modifies nothing
+//@   let inst = u.slots[slotof(routingKey)]
+//@   ensures @slot-owner-for-writes inst != nil && !isROcmd(lower(str(req.body.Array[0].Text))) ==> result1 == nil && result0 == inst.Addr
+//@   ensures @master-strategy inst != nil && (redisopt(u.cfg.Config) == nil || redisopt(u.cfg.Config).ReadStrategy == 0) ==> result1 == nil && result0 == inst.Addr
+//@   ensures @replica-of-owner inst != nil ==> result1 == nil && (result0 == inst.Addr || (exists k int :: 0 <= k && k < len(inst.Replicas) && inst.Replicas[k] != nil && result0 == inst.Replicas[k].Addr))
+//@   ensures @replica-strategy-prefers-replicas inst != nil && isROcmd(lower(str(req.body.Array[0].Text))) && redisopt(u.cfg.Config) != nil && redisopt(u.cfg.Config).ReadStrategy == 1 && len(inst.Replicas) > 0 ==> result0 != inst.Addr || (exists k int :: 0 <= k && k < len(inst.Replicas) && inst.Replicas[k].Addr == inst.Addr)
+//@   loop 0 invariant inst != nil && len(candidates) <= 1 + rangeindex + 1 && 0 <= len(candidates)
+//@   loop 0 invariant forall j int :: 0 <= j && j < len(candidates) ==> candidates[j] == inst.Addr || (exists k int :: 0 <= k && k < len(inst.Replicas) && inst.Replicas[k] != nil && candidates[j] == inst.Replicas[k].Addr)
